@@ -52,7 +52,7 @@ def hdf5_writer(filename, data, components=None):
             else:
                 if values.dtype.kind == 'f':
                     values[~mask] = np.nan
-                elif values.dtype.kind == 'i':
+                elif values.dtype.kind in ('i', 'u'):
                     values[~mask] = 0
                 elif values.dtype.kind == 'S':
                     values[~mask] = ''
